@@ -1,7 +1,7 @@
 """C06 - see graph_props.py (verified graph checkers on the real parser's output)."""
 from harness.props import graph_props
 
-EXTRA_TARGETS = ["Check/Graph.vo"]
+EXTRA_TARGETS = ["Check/Graph.vo", "Proofs/NonVacuity.vo"]
 
 
 def run(ctx, replay=None):
